@@ -7,3 +7,59 @@ T.register("C11", __name__, T.h_explain, {}, [GRAPHS[g] for g in sorted(GRAPHS)]
                 "validate(o) fails, and a missing-key failure names a listed key; explain fails only with "
                 "InsufficientInformationError and runs no body beyond branch selection",
            bounds="one symbolic dictionary (every sub-dictionary of a sufficient one is a value of the presence flags)")
+
+
+
+# ---------------------------------------------------------------------------------------------------------
+from labrea import Option
+
+from engine.api import harness
+from engine.catalog import nest
+from engine.hutil import note, outcome, quiet
+from engine.refsem import ref_exists
+
+
+@Option.namespace
+class APPNS:
+    HOST: str
+    RETRIES = Option.auto(doc="required, no default")
+    LEVEL = Option.auto("INFO")
+
+    class DB:
+        URL = Option.auto(doc="required")
+        POOL = 4
+
+
+_NS_KEYS = ["APPNS.HOST", "APPNS.RETRIES", "APPNS.LEVEL", "APPNS.DB.URL", "APPNS.DB.POOL"]
+_NS_REQUIRED = {"APPNS.HOST", "APPNS.RETRIES", "APPNS.DB.URL"}
+
+
+@harness("C11", lemma="namespace", example=dict(f0=True, f1=True, f2=False, f3=True, f4=False, v=1), timeout=300,
+         bounds="a namespace with annotation-only, Option.auto (with and without default), constant and nested members; every key "
+                "present or absent",
+         what="explain(o) of a namespace contains keys(o); the listed keys that are absent are exactly what is still to be supplied "
+              "(none absent => validate passes; some absent => validate fails naming a listed key)")
+def namespace_explain(f0: bool, f1: bool, f2: bool, f3: bool, f4: bool, v: int) -> int:
+    o = nest([(k, v) for k, f in zip(_NS_KEYS, (f0, f1, f2, f3, f4)) if f])
+    with quiet():
+        ex = outcome(lambda: APPNS.explain(o))
+        ks = outcome(lambda: APPNS.keys(o))
+        val = outcome(lambda: APPNS.validate(o))
+    note("options", o, "explain", ex, "keys", ks, "validate", val)
+    if ex[0] != "ok":
+        return 0
+    if not _NS_REQUIRED <= ex[1]:
+        return 0
+    if ks[0] == "ok" and not ks[1] <= ex[1]:
+        return 0
+    absent = [k for k in ex[1] if not ref_exists(o, k)]
+    required_absent = [k for k in _NS_REQUIRED if not ref_exists(o, k)]
+    if not required_absent:
+        if val[0] != "ok" or ks[0] != "ok":
+            return 0
+        return 2
+    if val[0] == "ok":
+        return 0
+    if val[0] == "missing" and val[1] not in ex[1]:
+        return 0
+    return 2
